@@ -1,4 +1,4 @@
-import RSocketModel.Proofs.Composite
+import RSocketModel.Proofs.C18Lemmas
 /-!
 # C18 — Extension metadata codecs round-trip within format limits
 
@@ -71,22 +71,6 @@ theorem c18_tags_roundtrip (tags : List Bytes) (h : ∀ t ∈ tags, t.length ≤
   obtain ⟨e, he⟩ := hex
   exact ⟨e, he, decodeTags_encodeTags tags e he⟩
 
-/-- an item within the format's limits -/
-def WFItem : Item → Prop
-  | .raw m _ => WFName Gen.mimeTable m ∧ m ≠ nameRouting ∧ m ≠ nameMime ∧ m ≠ nameAccept ∧ m ≠ nameAuth
-  | .routing tags => ∀ t ∈ tags, t.length ≤ 255
-  | .dataMime m => WFName Gen.mimeTable m
-  | .acceptMimes ms => ∀ m ∈ ms, WFName Gen.mimeTable m
-  | .authSimple u _ => u.length < 2 ^ 16
-  | .authBearer _ => True
-
-instance (t : Table) (n : Bytes) : Decidable (WFName t n) := by unfold WFName; infer_instance
-instance (it : Item) : Decidable (WFItem it) := by cases it <;> unfold WFItem <;> infer_instance
-
-theorem names_distinct :
-    nameMime ≠ nameRouting ∧ nameAccept ≠ nameRouting ∧ nameAccept ≠ nameMime ∧ nameAuth ≠ nameRouting ∧
-    nameAuth ≠ nameMime ∧ nameAuth ≠ nameAccept ∧ nameBearer ≠ nameSimple := by decide +kernel
-
 /-- **every entry kind** decodes back from its content -/
 theorem c18_item_roundtrip (it : Item) (c : Bytes) (hwf : WFItem it)
     (hc : it.content Gen.mimeTable Gen.authTable = some c) :
@@ -143,18 +127,6 @@ theorem c18_item_roundtrip (it : Item) (c : Bytes) (hwf : WFItem it)
       have hw : WFName Gen.authTable nameBearer := Or.inl c18_item_classes.2.2.2
       have := decodeMime_encodeMime _ hat nameBearer h tok hw hh
       simp [decodeItem, Item.mime, d4, d5, d6, d7, this]
-
-theorem special_names_wf :
-    WFName Gen.mimeTable nameRouting ∧ WFName Gen.mimeTable nameMime ∧ WFName Gen.mimeTable nameAccept ∧
-    WFName Gen.mimeTable nameAuth := by
-  refine ⟨Or.inr ?_, Or.inr ?_, Or.inr ?_, Or.inr ?_⟩ <;> decide +kernel
-
-theorem item_mime_wf (it : Item) (h : WFItem it) : WFName Gen.mimeTable it.mime := by
-  obtain ⟨h1, h2, h3, h4⟩ := special_names_wf
-  cases it <;> simp only [Item.mime] <;> first | exact h.1 | assumption
-
-theorem decode_nil : decode Gen.mimeTable Gen.authTable [] = .ok [] := by
-  rw [decode]; simp
 
 /-- **composite metadata**: every list of entries of every kind, within the format's limits
 (names 1–128 bytes or well-known, tags ≤ 255 bytes, user name < 2^16, entry content < 2^24
